@@ -62,7 +62,7 @@ Theorem c05_e2e_touch : forall c, (forall e, exn_isa e Exception_ = true -> exn_
         (fun v w => v = (if nr then DBool true else contract_touch o) /\ St sstate sid s' [] w) (fun _ _ => False).
 Proof. exact E2E.touch_e2e. Qed.
 Theorem c05_e2e_flush : forall c, (forall e, exn_isa e Exception_ = true -> exn_isa e (h_misc c) = true) ->
-  forall sid s delay n db, check_integer c delay = Ok db -> (forall z, int_value delay = Some z -> 0 <= z < 2 ^ 63) ->
+  forall sid s delay n db, check_integer c delay = Ok db -> (forall z, int_value delay = Some z -> 0 <= z) ->
   exists z, int_value delay = Some z /\
   let nr := eff_noreply c n in
   let s' := fst (exec s (CFlush z nr)) in
